@@ -18,7 +18,7 @@ import (
 func init() {
 	Register(&Spec{
 		ID:          "C09",
-		Explanation: "Decides structural necessary conditions of clean termination: (R1/R2) every function body in package rpc returns with the lock state it was entered with on every CFG path, except the five documented lock-transfer functions whose inferred summaries must equal the documented ones; (R3) every function with a 'caller must (not) be holding' comment is entered in exactly that state from every call path; (R4) no application-provided code, blocking operation or re-acquisition happens under Conn.mu (transitively through static calls), transport operations run under the sender lock and without Conn.mu; (R5) shutdown shape and task-group pairing; (R6) torn-write latch: single writer, checked before I/O, and the latch's guard is satisfiable by a value that can actually arrive; (R8) wake-ups happen on every path, at most once. (R9) answer.sendReturn returns an error only where finishReceived is established; no tasks.Done() is reachable after a call of shutdown in the same function (shutdown waits for the task group). Does NOT decide bounded time, goroutine exit under real schedulers or behaviour of user transports.",
+		Explanation: "Decides structural necessary conditions of clean termination: (R1/R2) every function body in package rpc returns with the lock state it was entered with on every CFG path, except the five documented lock-transfer functions whose inferred summaries must equal the documented ones; (R3) every function with a 'caller must (not) be holding' comment is entered in exactly that state from every call path; (R4) no application-provided code, blocking operation or re-acquisition happens under Conn.mu (transitively through static calls), transport operations run under the sender lock and without Conn.mu; (R5) shutdown shape and task-group pairing; (R6) torn-write latch: single writer, checked before I/O, and the latch's guard is satisfiable by a value that can actually arrive; (R8) wake-ups happen on every path, at most once. (R9) answer.sendReturn returns an error only where finishReceived is established; no tasks.Done() is reachable after a call of shutdown in the same function (shutdown waits for the task group), and none after a deferred tasks.Done(); (R10) the reader goroutine of a stream codec is waited for only after the stream was closed; (R11) no implementation of Returner.Return reaches Conn.shutdown on its own goroutine: Return runs on the goroutine of an ongoing call of a local server, shutdown releases the clients the connection holds, and a server's Shutdown waits for its ongoing calls. Does NOT decide bounded time, goroutine exit under real schedulers or behaviour of user transports.",
 		Run:         runC09,
 	})
 }
@@ -36,7 +36,10 @@ func runC09(ctx *Ctx) {
 	ruleLatch(ctx, "C09-R6")
 	ruleLatchLive(ctx, "C09-R6c")
 	ruleWakeups(ctx, "C09-R8")
+	ruleReaderReapedAfterClose(ctx, "C09-R10")
+	ruleNoShutdownOnCallGoroutine(ctx, "C09-R11")
 	r := ctx.Rep
+	r.Floor("C09-R10", 1)
 	r.Floor("C09-R1", 120)
 	r.Floor("C09-R3", 30)
 	r.Floor("C09-R4", 300)
@@ -296,6 +299,29 @@ func ruleTaskPairing(ctx *Ctx, rule string) {
 			noPathCheck(ctx, a, rule, fmt.Sprintf("%s | shutdown #%d is not called while holding a task", u.Name, k), u, p.After(), p.B.Nodes[p.I].Pos(), isDone(info), nil,
 				"tasks.Done() is reachable after the call of shutdown in the same function: shutdown blocks in tasks.Wait until every task is done, so it waits for the goroutine that is calling it (no Abort is sent, Done() never closes, Close hangs)",
 				"no tasks.Done() follows the call of shutdown: the task was given back before")
+		}
+		// the same through a defer: a Done that was deferred before shutdown is
+		// called runs only when the function returns, i.e. after shutdown
+		isDeferredDone := func(m ast.Node) bool {
+			d, ok := m.(*ast.DeferStmt)
+			if !ok {
+				return false
+			}
+			found := false
+			ast.Inspect(d.Call, func(x ast.Node) bool {
+				if x != nil && isDone(info)(x) {
+					found = true
+				}
+				return !found
+			})
+			return found
+		}
+		k = 0
+		for _, p := range u.Find(isDeferredDone) {
+			k++
+			noPathCheck(ctx, a, rule, fmt.Sprintf("%s | deferred tasks.Done #%d is not pending at a call of shutdown", u.Name, k), u, p.After(), p.B.Nodes[p.I].Pos(), isShutdown, nil,
+				"shutdown can be called after tasks.Done() was deferred in the same function: the deferred Done runs only when the function returns, shutdown blocks in tasks.Wait until every task is done, so it waits for the goroutine that is calling it (no Abort is sent, Done() never closes, Close hangs)",
+				"no call of shutdown is reachable after this defer")
 		}
 	}
 	// (iv) pcalls.Add / Done in handleCall
